@@ -9,9 +9,12 @@ def _unescape(s):
     return s.replace('\\"', '"').replace("\\\\", "\\")
 
 
-def model_hist_to_script(hist, n, ids):
+TSCALE = {"KReplMC_trim": 302410, "KReplMC_trim_quick": 302410}   # 2 model units = the 7 day changelog / recycle windows
+
+
+def model_hist_to_script(hist, n, ids, tscale=10):
     """Operation history exported by KReplMC -> driver script (see harness/repl/src/hist.rs)."""
-    lines = [{"op": "init", "n": n}]
+    lines = [{"op": "init", "n": n, "tscale": tscale}]
     for u in ids:
         lines.append({"op": "create", "r": "A", "e": u, "name": f"m{u}", "kind": "person"})
     lines.append({"op": "mesh"})
@@ -64,7 +67,7 @@ def simulate_behaviours(pid, cfg, num, depth, seed):
 CFG_SHAPE = {  # cfg -> (replicas, initial ids)
     "KReplMC_chain": (3, [1]), "KReplMC_2r": (2, [1]), "KReplMC_2r_quick": (2, [1]),
     "KReplMC_2r_skew": (2, [1]), "KReplMC_sim": (3, [1, 2]), "KReplMC_life": (2, [1]), "KReplMC_life_quick": (2, [1]),
-    "KReplMC_uniq": (2, [1]), "KReplMC_uniq_quick": (2, [1]),
+    "KReplMC_uniq": (2, [1]), "KReplMC_uniq_quick": (2, [1]), "KReplMC_trim": (2, [1]), "KReplMC_trim_quick": (2, [1]),
 }
 
 
@@ -91,7 +94,7 @@ def run_property(pid, tier, replay, meta, mode, witnesses, cfgs_quick=None, cfgs
             if sum(1 for s in scripts if s[0].startswith("cex:" + cfg + ":" + inv)) >= (2 if tier == "quick" else 12):
                 continue
             n, ids = CFG_SHAPE[cfg]
-            scripts.append((f"cex:{cfg}:{inv}", model_hist_to_script(hist, n, ids)))
+            scripts.append((f"cex:{cfg}:{inv}", model_hist_to_script(hist, n, ids, TSCALE.get(cfg, 10))))
         ncex = len(scripts)
         # (2) complete model behaviours (simulation) replayed on the real servers
         beh = simulate_behaviours(pid, "KReplMC_sim", 12 if tier == "quick" else 400, 14, lib.seed())
